@@ -515,6 +515,57 @@ fn observe(case: &Case, store: &mut AnnotationStore, n: usize, sub: (usize, usiz
                 }
             }
         }
+        // --- the other C07 operations on the resource and on the sub-selection (answers must not depend on the knobs)
+        {
+            let sub_t = catch(|| resource.textselection(&Offset::simple(sub.0, sub.1))).ok().and_then(|r| r.ok());
+            let re_src = format!("(?:{})+", regex::escape(&needle));
+            let re2_src = "\\w+".to_string();
+            let res: Vec<regex::Regex> = [re_src.as_str(), re2_src.as_str()].iter().filter_map(|s| regex::Regex::new(s).ok()).collect();
+            let fragments: Vec<String> = needle.chars().take(2).map(|c| c.to_string()).collect();
+            let frag_refs: Vec<&str> = fragments.iter().map(|s| s.as_str()).collect();
+            let trimset: Vec<char> = needle.chars().chain([' ']).collect();
+            let lower = needle.to_lowercase();
+            macro_rules! c07ops {
+                ($label:expr, $t:expr) => {{
+                    let t = $t;
+                    let v = catch(|| t.find_text_nocase(&lower).take(MAX_RESULTS).map(|x| fmt_sel(&x)).collect::<Vec<_>>());
+                    secs.push(Section { name: format!("find_text_nocase.{}", $label), value: v.map(|x| format!("{:?}", x)).unwrap_or_else(|pi| format!("panic:{}", pi.signature())), indep: true });
+                    for allow_overlap in [false, true] {
+                        let v = catch(|| match t.find_text_regex(&res, None, allow_overlap) {
+                            Ok(iter) => iter
+                                .take(MAX_RESULTS)
+                                .map(|m| format!("{:?}@{}", m.textselections().iter().map(|x| fmt_sel(x)).collect::<Vec<_>>(), m.expression_index()))
+                                .collect::<Vec<_>>(),
+                            Err(e) => vec![format!("err:{}", err_name(&e))],
+                        });
+                        secs.push(Section { name: format!("find_text_regex.{}.overlap={}", $label, allow_overlap), value: v.map(|x| format!("{:?}", x)).unwrap_or_else(|pi| format!("panic:{}", pi.signature())), indep: true });
+                    }
+                    let v = catch(|| t.split_text(&needle).take(MAX_RESULTS).map(|x| fmt_sel(&x)).collect::<Vec<_>>());
+                    secs.push(Section { name: format!("split_text.{}", $label), value: v.map(|x| format!("{:?}", x)).unwrap_or_else(|pi| format!("panic:{}", pi.signature())), indep: true });
+                    let v = catch(|| t.trim_text(&trimset).map(|x| fmt_sel(&x)).map_err(|e| err_name(&e)));
+                    secs.push(Section { name: format!("trim_text.{}", $label), value: v.map(|x| format!("{:?}", x)).unwrap_or_else(|pi| format!("panic:{}", pi.signature())), indep: true });
+                    let v = catch(|| t.find_text_sequence(&frag_refs, |c| !c.is_alphanumeric(), true).map(|v| v.iter().map(|x| fmt_sel(x)).collect::<Vec<_>>()));
+                    secs.push(Section { name: format!("find_text_sequence.{}", $label), value: v.map(|x| format!("{:?}", x)).unwrap_or_else(|pi| format!("panic:{}", pi.signature())), indep: true });
+                }};
+            }
+            if !needle.is_empty() {
+                c07ops!("resource", &resource);
+                if let Some(st) = &sub_t {
+                    c07ops!("selection", st);
+                }
+            }
+            // segmentation depends on which selections are known: compared across knob settings only
+            let v = catch(|| resource.segmentation().take(MAX_RESULTS).map(|x| (x.begin(), x.end())).collect::<Vec<_>>());
+            secs.push(Section { name: "segmentation.resource".into(), value: v.map(|x| format!("{:?}", x)).unwrap_or_else(|pi| format!("panic:{}", pi.signature())), indep: false });
+            if sub.0 < sub.1 {
+                let v = catch(|| resource.segmentation_in_range(sub.0, sub.1).take(MAX_RESULTS).map(|x| (x.begin(), x.end())).collect::<Vec<_>>());
+                secs.push(Section { name: "segmentation.in_range".into(), value: v.map(|x| format!("{:?}", x)).unwrap_or_else(|pi| format!("panic:{}", pi.signature())), indep: false });
+                if let Some(st) = &sub_t {
+                    let v = catch(|| st.segmentation().take(MAX_RESULTS).map(|x| (x.begin(), x.end())).collect::<Vec<_>>());
+                    secs.push(Section { name: "segmentation.selection".into(), value: v.map(|x| format!("{:?}", x)).unwrap_or_else(|pi| format!("panic:{}", pi.signature())), indep: false });
+                }
+            }
+        }
         // --- all known selections, in textual order
         let v = catch(|| resource.textselections().take(MAX_RESULTS).map(|t| (t.begin(), t.end())).collect::<Vec<_>>());
         secs.push(Section {
@@ -566,7 +617,7 @@ impl Property for C12 {
         ]
     }
     fn cases(&self, tier: Tier) -> u64 {
-        tier.pick(12_000, 400_000)
+        tier.pick(10_000, 300_000)
     }
     fn strategy(&self, _tier: Tier) -> BoxedStrategy<Case> {
         (
